@@ -14,7 +14,7 @@ RULE = ("AST-first random filter-free queries (0-4 child/descendant segments, 1-
         "hostile member names) rendered with random lexical spelling, applied through env.find and compile().finditer to "
         "documents planted from the query; oracle = literal RFC 9535 nodelist semantics. Non-trivial: expected nodelist "
         "non-empty and (>=2 segments or >=2 selectors or a descendant segment); distinct by (AST, document)."
-        " A quarter of the cases go through one compiled query that was first abandoned half-way on another document (find_one / partial finditer), and some through an environment instance whose nondeterministic flag was switched on and off again before the checked call.")
+        " A quarter of the cases go through one compiled query that was first abandoned half-way on another document (find_one / partial finditer), and some through an environment instance whose nondeterministic flag was switched on and off again before the checked call. A stream battery builds, queries and drops 192 same-shaped wide documents (256-1000 members) one after the other.")
 ASSUMPTIONS = ["reference evaluator vf/oracle/sem.py transcribes RFC 9535 2.3/2.5 correctly (cross-validated against the repository's IETF example tables by ./selfcheck)",
                "documents are JSON values as json.load yields them (dict/list/str/int/float/bool/None, string keys)"]
 DECIDING_MONITORS = ["M-find"]
@@ -27,9 +27,37 @@ def plan(tier, seed, nproc, scale):
     return [{"kind": "random", "seed": "%d/%d" % (seed, i), "n": per} for i in range(shards)]
 
 
+def stream_battery(jp, rec, R):
+    """A stream of same-shaped wide documents, each built, queried and dropped before the next one is built (the next one
+    usually lands at the same addresses): every result is compared with the model."""
+    abn = __import__("vf.oracle.abnf", fromlist=["x"]).get(True)
+    texts = ["$..id", "$..*", "$..[0]", "$[*]..id", "$..['id','tag']", "$.wide..id"]
+    asts = {t: abn.ast(t) for t in texts}
+    for width in (256, 300, 400, 1000):
+        for kind in ("object", "array"):
+            for rnd in range(24):
+                nested = {(rnd * 7 + j * 53) % width for j in range(5)}
+                if kind == "object":
+                    wide = {"k%03d" % i: ({"id": i, "tag": "hit"} if i in nested else i) for i in range(width)}
+                else:
+                    wide = [([{"id": i}, i] if i in nested else i) for i in range(width)]
+                doc = {"meta": {"id": -rnd}, "wide": wide} if rnd % 2 else [wide, {"id": rnd}]
+                text = texts[rnd % len(texts)]
+                key, want, got = SD.check_case(jp, text, asts[text], doc, rec, "finditer")
+                rec.case(("stream", width, kind, rnd), True)
+                rec.feat("stream-of-wide-documents")
+                if key:
+                    rec.violation(key, {"query": text, "document": "document %d of a stream of same-shaped documents: %s of %d members, nested containers at %s" % (rnd, kind, width, sorted(nested)),
+                                        "expected_nodes": len(want), "observed": len(got) if isinstance(got, list) else got})
+                    return
+                del doc, wide
+
+
 def run_shard(spec, rec):
     import jsonpath_rfc9535 as jp
     R = random.Random(spec["seed"])
+    if str(spec["seed"]).split("/")[-1] in ("0", "1"):
+        stream_battery(jp, rec, R)
     cfg = G.Cfg(filters=False, max_segments=4, big_ints=True)
     gen = G.QGen(R, cfg)
     from jsonpath_rfc9535 import JSONPathEnvironment
